@@ -11,13 +11,19 @@
         -> implicit_system_iff_minimiser, implicit_minimiser_unique, implicit_row_minimises,
            halfstep_implicit_optimal
    * the residual check used on every observed half-step is a verified checker
-        -> halfstep_checker_sound_complete, halfstep_inhabits_checker
+        -> halfstep_checker_sound_complete, halfstep_inhabits_checker, residual_scale
    * "rows without data keep their previous values"
         -> empty_rows_kept, empty_rows_kept_checked
    * rows are solved independently of one another (what the chunked fan-out relies on)
         -> halfstep_rows_independent, halfstep_row_with_data
    * "the embedding folded in for a supplied user history is the corresponding solution for that
      history"  -> foldin_is_same_system, foldin_is_row_update, foldin_uses_known_items
+     (the fold-in system is a function of the item embeddings, the ridge and the history's row only:
+     after a re-training of the same object the case files evaluate it on the embeddings the LAST
+     training left, never on a value cached on the object; a train(retrain = false) on a trained object
+     keeps the embeddings -> kept_ok_checks)
+     the fold-in seen through the public interface only (history in, embedding out)
+        -> foldin_public_view
    * "scores are embedding dot products plus the applicable bias terms"
         -> score_is_dot_plus_bias, score_is_dot_implicit
    * "FunkSVD training equals feature-by-feature stochastic gradient descent over the seeded
@@ -33,7 +39,7 @@
 From mathcomp Require Import all_ssreflect all_algebra.
 From LK Require Proofs.C10_normal_eq.
 From Coq Require Import ZArith QArith List.
-From LK Require Import Lib.QLib Model.C10_als Model.C10_funksvd Proofs.C10_ls Proofs.C10_als_proofs Proofs.C10_funksvd_proofs.
+From LK Require Import Lib.QLib Model.C10_als Model.C10_funksvd Model.C10_history Proofs.C10_ls Proofs.C10_als_proofs Proofs.C10_funksvd_proofs Proofs.C10_history_proofs.
 Import ListNotations.
 Module NE := LK.Proofs.C10_normal_eq.
 
@@ -104,14 +110,25 @@ Print Assumptions implicit_row_minimises.
 
 (* the residual check at tolerance 0 decides "rows with data solve their system, rows without
    data are unchanged" *)
-Theorem halfstep_checker_sound_complete : forall sys left rows left',
-  halfstep_ok 0 sys left rows left' = true <-> halfstep_spec sys left rows left'.
+Theorem halfstep_checker_sound_complete : forall sys sc left rows left',
+  halfstep_ok 0 sys sc left rows left' = true <-> halfstep_spec sys left rows left'.
 Proof. exact halfstep_ok_exact. Qed.
 Print Assumptions halfstep_checker_sound_complete.
 
+(* The tolerance of the residual check is relative to |A||x| + |y| + sc, sc = | |M|^T |v| |_inf being the size of
+   the data the right-hand side was formed from (y = M^T v may cancel to 0 while the code's y is rounding noise
+   of size eps * |M|^T |v|).  The scale plays no role for exactness (tolerance 0), it is >= 0, and adding it only
+   widens: whatever passes relative to |A||x| + |y| alone passes with it. *)
+Theorem residual_scale : forall tol sc A x y fb k other row,
+  (resid_ok 0 sc A x y = true <-> solves (A, y) x) /\
+  0 <= row_scale fb k other row /\
+  (0 <= tol -> resid_ok tol 0 A x y = true -> resid_ok tol (row_scale fb k other row) A x y = true).
+Proof. exact residual_scale_l. Qed.
+Print Assumptions residual_scale.
+
 (* ... and the half-step run with an exact solver satisfies it *)
-Theorem halfstep_inhabits_checker : forall solve sys left rows, length left = length rows ->
-  solver_exact_on solve sys rows -> halfstep_ok 0 sys left rows (halfstep solve sys left rows) = true.
+Theorem halfstep_inhabits_checker : forall solve sys sc left rows, length left = length rows ->
+  solver_exact_on solve sys rows -> halfstep_ok 0 sys sc left rows (halfstep solve sys left rows) = true.
 Proof. exact halfstep_passes_checker. Qed.
 Print Assumptions halfstep_inhabits_checker.
 
@@ -140,8 +157,8 @@ Theorem empty_rows_kept : forall solve sys left rows i,
 Proof. exact empty_rows_kept_l. Qed.
 Print Assumptions empty_rows_kept.
 
-Theorem empty_rows_kept_checked : forall tol sys left rows left' i old new,
-  halfstep_ok tol sys left rows left' = true ->
+Theorem empty_rows_kept_checked : forall tol sys sc left rows left' i old new,
+  halfstep_ok tol sys sc left rows left' = true ->
   nth_error rows i = Some [] -> nth_error left i = Some old -> nth_error left' i = Some new -> veq new old.
 Proof. exact Proofs.C10_als_proofs.empty_rows_kept_checked. Qed.
 Print Assumptions empty_rows_kept_checked.
@@ -181,6 +198,24 @@ Proof.
   exact (Proofs.C10_als_proofs.foldin_uses_known_items vocab h).
 Qed.
 Print Assumptions foldin_uses_known_items.
+
+(* The public-only check of an explicit fold-in (the row is the model's own, with an allowance `tolb` for
+   the single-precision normalised ratings the code used): without allowance it is the residual checker
+   `foldin_ok_explicit`; with any allowance >= 0 it accepts whatever that checker accepts on the row. *)
+Theorem foldin_public_view : forall tol k lam items row x,
+  foldin_ok_explicit_pub tol 0 k lam items row x = foldin_ok_explicit tol k lam items row x /\
+  (forall tolb, 0 <= tolb -> foldin_ok_explicit tol k lam items row x = true ->
+                foldin_ok_explicit_pub tol tolb k lam items row x = true).
+Proof. exact foldin_public_view_l. Qed.
+Print Assumptions foldin_public_view.
+
+(* train(d, retrain = false) on a trained object: the case files accept it iff both embedding matrices
+   are entry for entry (==) what they were, and user embeddings are neither dropped nor created. *)
+Theorem kept_ok_checks : forall Pb Pa Qb Qa,
+  kept_ok Pb Pa Qb Qa = true <->
+  meqb Qb Qa = true /\ match Pb, Pa with Some a, Some b => meqb a b = true | None, None => True | _, _ => False end.
+Proof. exact kept_ok_iff. Qed.
+Print Assumptions kept_ok_checks.
 
 Theorem score_is_dot_plus_bias : forall vocab k items b u ub cands,
   map fst (score_explicit vocab k items b u ub cands) = cands /\
@@ -251,10 +286,11 @@ Example c10_nonvacuous :
   let rows : list srow := [[(0%nat, 3); (1%nat, 1)]; []] in
   let left : mat := [[5; 5]; [7 # 2; 1]] in
   let sys := row_system Explicit 2 (1 # 2) other in
+  let sc := row_scale Explicit 2 other in
   (* row 0: A = I + (1/2)*2*I = 2I, y = (3, 1)  =>  x = (3/2, 1/2) *)
-  halfstep_ok 0 sys left rows [[3 # 2; 1 # 2]; [7 # 2; 1]] = true /\
-  halfstep_ok 0 sys left rows [[3 # 2; 1]; [7 # 2; 1]] = false /\
-  halfstep_ok 0 sys left rows [[3 # 2; 1 # 2]; [0; 0]] = false /\
+  halfstep_ok 0 sys sc left rows [[3 # 2; 1 # 2]; [7 # 2; 1]] = true /\
+  halfstep_ok 0 sys sc left rows [[3 # 2; 1]; [7 # 2; 1]] = false /\
+  halfstep_ok 0 sys sc left rows [[3 # 2; 1 # 2]; [0; 0]] = false /\
   let p : params q_arith := Build_params q_arith 1 (1 # 10) (1 # 100) (Some (1 # 2, 5)) (1 # 10) in
   let r := train q_arith p 2 2 2 [(0%nat, 0%nat, 4, 3); (1%nat, 0%nat, 2, 3)] in
   get2 q_arith (fst r) 0 0 <> (1 # 10) /\ get2 q_arith (fst r) 0 1 <> (1 # 10).
